@@ -209,6 +209,11 @@ class Facts:
         return out
 
 
+def binding_layer(path):
+    """bodies of the pyo3 binding layer (module `python`, including macro-generated glue) — not part of the numeric core"""
+    return path.startswith("python::") or "<python::" in path or " python::" in path
+
+
 def rel(s):
     if s.startswith(REPO + "/"):
         return s[len(REPO) + 1:]
@@ -216,9 +221,11 @@ def rel(s):
 
 
 _loaded = {}
+OVERRIDE = {}   # thorough tier: analyse the same rules on another feature configuration ("default" -> "python", ...)
 
 
 def load(config):
+    config = OVERRIDE.get(config, config)
     if config not in _loaded:
         p = export(config)
         _loaded[config] = Facts(p, config)
